@@ -98,7 +98,7 @@ CHECKS = {
         "with read failures at any stage; TLC checks for every input of the small universe that the report equals the report of the tree without the failed files (Isolated) and, without faults, the "
         "filtered content partition (Complete). On the real binary a calibration run lists every stat/open/n-th read/opendir/n-th readdir/extent query per path; one run per (path, call, ordinal, "
         "EACCES/EIO/ENOENT) and sampled pairs is compared with a fault-free run on the same tree without the entry; exit status and warnings are checked; a two-run --transform --cache scenario "
-        "covers a read failing inside the transform program.",
+        "covers a read failing inside the transform program. Every faulted run is also validated stage by stage against Grouping.tla (Trace_Grouping: the paths whose open / read was failed are the specification's unreadable paths, entries lost during the walk are not part of the input; BadAlone and OthersUnaffected are evaluated on the matched states).",
    note="reference = same tree with the entry deleted; single hashing thread for reproducible ordinals; group shapes compared (the printed hash of a pass-through singleton may differ)",
    tech="TLC model checking of the staged pipeline with faults + syscall fault enumeration on the real binary (differential against the fault-free run)"),
  "C07": dict(cat="model_checking", sec="5 C07",
